@@ -105,52 +105,74 @@ Definition is_true (r : pres) : bool := match r with PTrue => true | _ => false 
 Definition is_false (r : pres) : bool := match r with PFalse => true | _ => false end.
 Definition is_err (r : pres) (st : N) : bool := match r with PErr e => N.eqb st (10 + e) | _ => false end.
 
+(* 1. the event: new calls, cancellations *)
+Definition mon_mas1 (m : mst) (e : list N) : list mactor :=
+  match e with
+  | 1 :: mode :: hold :: block :: ops =>
+    mas m ++ [{| mkd := KClient (map dec_op ops) (N.eqb hold 1) (N.eqb block 1); mcanc := false; mlast := 0 |}]
+  | [2; pk; k; pre; slow] => mas m ++ [{| mkd := KWait pk k (N.eqb slow 1); mcanc := N.eqb pre 1; mlast := 0 |}]
+  | [4; i] => upd (mas m) (N.to_nat i) (fun x => {| mkd := mkd x; mcanc := true; mlast := mlast x |})
+  | _ => mas m
+  end%N.
+
+(* 2. the client callback that ran during this step: the section of actor i on [3; i]; on a TryHoldLock /
+   HoldLockMaybeAsync call the new actor's own callback unless it is observed as "false" (5) / at its gate (1) *)
+Definition mon_ops_ran (mas1 : list mactor) (nold : nat) (e sts : list N) : list op :=
+  match e with
+  | [3; i] => match nth_error mas1 (N.to_nat i) with Some x => m_ops x | None => [] end
+  | 1 :: mode :: _ :: _ :: ops =>
+    if N.eqb mode 0 then []
+    else match nth_error sts nold with
+         | Some st => if N.eqb st 5 || N.eqb st 1 then [] else map dec_op ops
+         | None => []
+         end
+  | _ => []
+  end%N.
+
+(* 3. the clauses about Wait calls, per (actor, observed status) *)
+Definition bad1 (g : N) (p : mactor * N) : bool :=
+  let (x, st) := p in
+  match m_wait x with
+  | Some (pk, k) => N.eqb st 3 && negb (N.eqb (mlast x) 3) && negb (is_true (evalp pk k g))
+  | None => false end.
+Definition bad2 (g : N) (p : mactor * N) : bool :=
+  let (x, st) := p in
+  match m_wait x with
+  | Some (pk, k) => N.leb 8 st && negb (N.eqb (mlast x) st) && negb (is_err (evalp pk k g) st)
+  | None => false end.
+Definition bad3 (p : mactor * N) : bool :=
+  let (x, st) := p in
+  match m_wait x with
+  | Some _ => N.eqb st 4 && negb (N.eqb (mlast x) 4) && negb (mcanc x)
+  | None => false end.
+Definition bad4 (g : N) (p : mactor * N) : bool :=
+  let (x, st) := p in
+  match m_wait x with
+  | Some (pk, k) => N.eqb st 2 && negb (is_false (evalp pk k g))
+  | None => false end.
+(* 4. the clauses about channels, per (expected closed, observed flag) and (previous flag, flag) *)
+Definition bad5 (p : bool * N) : bool := let (ex, f) := p in ex && N.eqb f 0.
+Definition bad7 (p : bool * N) : bool := let (ex, f) := p in negb ex && negb (N.eqb f 0).
+Definition bad6 (p : N * N) : bool := let (f0, f1) := p in N.eqb f0 1 && negb (N.eqb f1 1).
+Definition setlast (p : mactor * N) : mactor := let (x, st) := p in {| mkd := mkd x; mcanc := mcanc x; mlast := st |}.
+
 Definition mon (m : mst) (e o : list N) : mst * list (nat * nat) :=
-  let mas1 :=
-    match e with
-    | 1 :: mode :: hold :: block :: ops =>
-      mas m ++ [{| mkd := KClient (map dec_op ops) (N.eqb hold 1) (N.eqb block 1); mcanc := false; mlast := 0 |}]
-    | [2; pk; k; pre; slow] => mas m ++ [{| mkd := KWait pk k (N.eqb slow 1); mcanc := N.eqb pre 1; mlast := 0 |}]
-    | [4; i] => upd (mas m) (N.to_nat i) (fun x => {| mkd := mkd x; mcanc := true; mlast := mlast x |})
-    | _ => mas m
-    end%N in
+  let mas1 := mon_mas1 m e in
   match o with
   | g :: na :: rest =>
     let n := N.to_nat na in
     let sts := firstn n rest in
     let flags := skipn n rest in
     let pairs := combine mas1 sts in
-    (* the client callback that ran during this step: first observed after its gate *)
-    let ran := filter (fun p : mactor * N => let (x, st) := p in
-                         (N.eqb (mlast x) 0 || N.eqb (mlast x) 1) && (N.eqb st 2 || N.eqb st 3 || N.eqb st 6)) pairs in
-    let ops_ran := flat_map (fun p : mactor * N => m_ops (fst p)) ran in
-    let de := fold_left mon_op ops_ran (md m, mexp m) in
-    let c1 := existsb (fun p : mactor * N => let (x, st) := p in
-                match m_wait x with
-                | Some (pk, k) => N.eqb st 3 && negb (N.eqb (mlast x) 3) && negb (is_true (evalp pk k g))
-                | None => false end) pairs in
-    let c2 := existsb (fun p : mactor * N => let (x, st) := p in
-                match m_wait x with
-                | Some (pk, k) => N.leb 8 st && negb (N.eqb (mlast x) st) && negb (is_err (evalp pk k g) st)
-                | None => false end) pairs in
-    let c3 := existsb (fun p : mactor * N => let (x, st) := p in
-                match m_wait x with
-                | Some _ => N.eqb st 4 && negb (N.eqb (mlast x) 4) && negb (mcanc x)
-                | None => false end) pairs in
-    let c4 := negb (fst de) &&
-              existsb (fun p : mactor * N => let (x, st) := p in
-                match m_wait x with
-                | Some (pk, k) => N.eqb st 2 && negb (is_false (evalp pk k g))
-                | None => false end) pairs in
+    let de := fold_left mon_op (mon_ops_ran mas1 (length (mas m)) e sts) (md m, mexp m) in
     let ef := combine (snd de) flags in
-    let c5 := existsb (fun p : bool * N => let (ex, f) := p in ex && N.eqb f 0) ef in
-    let c7 := existsb (fun p : bool * N => let (ex, f) := p in negb ex && negb (N.eqb f 0)) ef in
-    let c6 := existsb (fun p : N * N => let (f0, f1) := p in N.eqb f0 1 && negb (N.eqb f1 1)) (combine (mflags m) flags) in
-    let mas2 := map (fun p : mactor * N => let (x, st) := p in {| mkd := mkd x; mcanc := mcanc x; mlast := st |}) pairs in
-    ({| mas := mas2; md := fst de; mexp := snd de; mflags := flags |},
-     (if c1 then [(3, 1)] else []) ++ (if c2 then [(3, 2)] else []) ++ (if c3 then [(3, 3)] else []) ++
-     (if c4 then [(3, 4)] else []) ++ (if c5 then [(3, 5)] else []) ++ (if c6 then [(3, 6)] else []) ++
-     (if c7 then [(3, 7)] else []))
+    ({| mas := map setlast pairs; md := fst de; mexp := snd de; mflags := flags |},
+     (if existsb (bad1 g) pairs then [(3, 1)] else []) ++ (if existsb (bad2 g) pairs then [(3, 2)] else []) ++
+     (if existsb bad3 pairs then [(3, 3)] else []) ++
+     (if negb (fst de) && existsb (bad4 g) pairs then [(3, 4)] else []) ++
+     (if existsb bad5 ef then [(3, 5)] else []) ++
+     (if existsb bad6 (combine (mflags m) flags) then [(3, 6)] else []) ++
+     (if existsb bad7 ef then [(3, 7)] else []))
   | _ => ({| mas := mas1; md := md m; mexp := mexp m; mflags := mflags m |}, [])
   end.
 
